@@ -49,12 +49,13 @@ type plan struct {
 	delay    time.Duration
 	greeting []byte   // written at accept (TCP)
 	replies  [][]byte // written after the datagram was read (UDP)
+	reuse    bool     // write everything from one buffer, overwritten as soon as Write returns
 }
 
 type worldT struct {
 	mu    sync.Mutex
 	cond  *sync.Cond
-	invs  map[string][]*invocation // by remote IP string (one per case)
+	invs  map[string][]*invocation // by the case serial embedded in the remote address
 	plans map[string]plan          // by network|local|remote
 	seq   int64
 }
@@ -105,7 +106,7 @@ func (s *stubSvc) Handle(ctx context.Context, conn net.Conn) error {
 	w.seq++
 	inv.seq = w.seq
 	p, ok := w.plans[connKey(inv.network, inv.local, inv.remote)]
-	owner := hostOf(inv.remote)
+	owner := serialOf(inv.remote)
 	w.invs[owner] = append(w.invs[owner], inv)
 	w.cond.Broadcast()
 	w.mu.Unlock()
@@ -115,7 +116,24 @@ func (s *stubSvc) Handle(ctx context.Context, conn net.Conn) error {
 	if p.readBuf <= 0 {
 		p.readBuf = 700
 	}
+	// A service may reuse its buffer as soon as Write has returned (io.Copy does): in
+	// reuse mode every write goes out of the same buffer, which is scribbled over right
+	// after Write returns and filled again right before the next Write.
+	var shared []byte
 	write := func(b []byte) {
+		if p.reuse {
+			if cap(shared) < len(b) {
+				shared = make([]byte, len(b), len(b)+4096)
+			}
+			shared = shared[:len(b)]
+			copy(shared, b)
+			b = shared
+			defer func() {
+				for i := range b {
+					b[i] = ^b[i]
+				}
+			}()
+		}
 		defer func() {
 			if r := recover(); r != nil {
 				w.mu.Lock()
@@ -253,7 +271,7 @@ func (w *worldT) forget(owner string, keys []string) {
 
 // ---------------------------------------------------------------- server
 
-var tcpPorts = []int{7001, 7002, 7003, 443}
+var tcpPorts = []int{7001, 7002, 7003, 443, 2, 22, 220, 44, 80, 808, 8080, 1, 11}
 var udpPorts = []int{5301, 53}
 
 type fixture struct {
